@@ -18,7 +18,8 @@ import (
 // typed_eq_reflect) against the real typed path. For every catalogue type whose shape is in the
 // wrapper grammar of the model, a batch of rows is written with ONE GenericBuffer[T].Write call
 // (one call of the type's writeRowsFunc for the whole batch, so the bitmap scan of optional
-// fields runs over the whole batch) and the stored streams are compared with the model's
+// fields runs over the whole batch; map types included: the typed path emits map entries in key
+// order, which is the order the harness abstracts them in) and the stored streams are compared with the model's
 // `typedWrite` on the abstracted batch (L2). The L1 side of the same comparison is C03/paths.
 func init() { RegisterSub("C03", "typedmirror", RunC03TypedMirror) }
 
@@ -34,9 +35,43 @@ func c03IsList(n parquet.Node) bool {
 	return ok
 }
 
+func c03IsMap(n parquet.Node) bool {
+	if n.Leaf() {
+		return false
+	}
+	lt := n.Type().LogicalType()
+	if lt == nil {
+		return false
+	}
+	_, ok := lt.Value.(*format.MapType)
+	return ok
+}
+
+// c03MapTNode renders the key and value writers of writeRowsFuncOfMap.
+func c03MapTNode(n parquet.Node, t reflect.Type, sb *strings.Builder) bool {
+	kv := n.Fields()[0]
+	if !c03TNode(kv.Fields()[0], t.Key(), true, sb) {
+		return false
+	}
+	sb.WriteString(",")
+	// an optional non-pointer map value gets no optional wrapper in writeRowsFuncOfMap: outside the model
+	if v := kv.Fields()[1]; v.Optional() && t.Elem().Kind() != reflect.Ptr {
+		return false
+	}
+	return c03TNode(kv.Fields()[1], t.Elem(), true, sb)
+}
+
 func c03FieldType(t reflect.Type, name string) (reflect.Type, bool) {
 	for i := 0; i < t.NumField(); i++ {
 		tag := t.Field(i).Tag.Get("parquet")
+		if sf := t.Field(i); sf.Anonymous && tag == "" && sf.Type.Kind() == reflect.Struct {
+			// promoted fields of an embedded struct: structFieldsOf flattens them, the struct
+			// writer gets one column writer per promoted field at its offset in the outer struct
+			if ft, ok := c03FieldType(sf.Type, name); ok {
+				return ft, true
+			}
+			continue
+		}
 		tn, _, _ := strings.Cut(tag, ",")
 		if tn == "" {
 			tn = t.Field(i).Name
@@ -51,7 +86,8 @@ func c03FieldType(t reflect.Type, name string) (reflect.Type, bool) {
 // c03TNode renders the wrapper composition writeRowsFuncOf builds for the Go type t on schema
 // node n in the text form of the Lean model:
 // F required leaf | Z optional non-pointer leaf | S(..) struct | P(x) pointer | R(x) slice |
-// L(x) slice with the list tag | Q(x) optional + list. ok = false: shape outside the model.
+// L(x) slice with the list tag | Q(x) optional + list | M(k,v) map | W(k,v) optional map.
+// ok = false: shape outside the model.
 func c03TNode(n parquet.Node, t reflect.Type, asIs bool, sb *strings.Builder) bool {
 	switch {
 	case asIs && n.Optional():
@@ -59,6 +95,11 @@ func c03TNode(n parquet.Node, t reflect.Type, asIs bool, sb *strings.Builder) bo
 		case t.Kind() == reflect.Ptr:
 			sb.WriteString("P(")
 			ok := c03TNode(n, t.Elem(), false, sb)
+			sb.WriteString(")")
+			return ok
+		case c03IsMap(n) && t.Kind() == reflect.Map:
+			sb.WriteString("W(")
+			ok := c03MapTNode(n, t, sb)
 			sb.WriteString(")")
 			return ok
 		case c03IsList(n) && t.Kind() == reflect.Slice:
@@ -85,6 +126,14 @@ func c03TNode(n parquet.Node, t reflect.Type, asIs bool, sb *strings.Builder) bo
 		}
 		sb.WriteString("L(")
 		ok := c03TNode(n.Fields()[0].Fields()[0], t.Elem(), true, sb)
+		sb.WriteString(")")
+		return ok
+	case c03IsMap(n):
+		if t.Kind() != reflect.Map {
+			return false
+		}
+		sb.WriteString("M(")
+		ok := c03MapTNode(n, t, sb)
 		sb.WriteString(")")
 		return ok
 	case n.Leaf():
@@ -136,7 +185,7 @@ func RunC03TypedMirror(ctx *core.Ctx) {
 	ncases := ctx.Scale(8, 80)
 	var wg sync.WaitGroup
 	sem := make(chan struct{}, 16)
-	for _, e := range gen.Catalog {
+	for _, e := range append(c03Types(), gen.MapCatalog...) {
 		var tsb strings.Builder
 		if e.Type.Kind() != reflect.Struct || !c03TNode(e.Schema, e.Type, false, &tsb) {
 			ctx.Hist("typedmirror-type", "outside the wrapper grammar of the model")
